@@ -64,6 +64,29 @@ let static_end_violation (f : string array) : string option =
     end
   with _ -> None
 
+(* the reference analysis (the extracted model, which agrees with the unchanged engine on every history of the
+   run) refuses the template - error code n, one of the causes the property lists - and the implementation ran
+   it: the disagreement "op<k>:<X|Y>:..:result:escape:<n>" against an implementation result "exec" IS an input on
+   which the property fails, and is reported as such instead of as a bare correspondence break *)
+let reference_refuses (f : string array) : string option =
+  try
+    match Drv_hist.replay f 3 with
+    | (Some d, _) ->
+      (match String.split_on_char ':' d with
+       | opk :: kind :: rest when (kind = "X" || kind = "Y") && String.length opk > 2 && String.sub opk 0 2 = "op" ->
+         let k = int_of_string (String.sub opk 2 (String.length opk - 2)) in
+         let rec tail = function "result" :: "escape" :: [code] -> Some code | _ :: t -> tail t | [] -> None in
+         (match tail rest with
+          | Some code when f.(5 + 3 * k) = "exec" ->
+            Some (Printf.sprintf "op%d:the_reference_analysis_refuses_the_template_(error_code_%s)_but_it_was_executed" k code)
+          | _ -> None)
+       | _ -> None)
+    | _ -> None
+  with _ -> None
+
 let () =
   let prev = Hashtbl.find handlers "hist05" in
-  reg "hist05" (fun f -> match static_end_violation f with Some c -> specfail f.(1) c | None -> prev f)
+  reg "hist05" (fun f ->
+      match static_end_violation f with
+      | Some c -> specfail f.(1) c
+      | None -> (match reference_refuses f with Some c -> specfail f.(1) c | None -> prev f))
